@@ -20,6 +20,9 @@ def units(tier, seed, only=None):
         core.Unit('opcode_arg_size', S, 'h_arg_size', enforce='opcode_arg_size', unwind=8, timeout=300),
         core.Unit('_strtoll', S, 'h_strtoll', enforce='_strtoll', unwind=sm + 3, timeout=900, defines=['STRMAX=%d' % sm],
                   bounded='strings of at most %d characters, base 0; loops unwound' % sm),
+        core.Unit('_strtoll:hex16', ['contracts/strtoll_hex.c'], 'hp_strtoll_hex16', enforce='_strtoll', no_dfcc=True, unwind=20, timeout=300,
+                  checks=[], cbmc_flags=['--no-standard-checks'], object_bits=10,
+                  contract_text='_strtoll("0x" + 16 hex digits, base 0) == that 64-bit value (bit 63 included) and *endptr at the end of the literal; assume/assert form'),
     ]
     if only:
         us = [u for u in us if re.search(only, u.name)]
